@@ -533,9 +533,13 @@ def compare_results(proto, m, impl, rets):
 
 
 def proto_sig(proto):
-    return '%s%s->%s' % (','.join(proto['args'][:proto['nfixed']]),
-                         (',...' + ','.join(proto['args'][proto['nfixed']:])) if proto['vararg'] else '',
-                         ','.join(proto['res']))
+    s = '%s%s->%s' % (','.join(proto['args'][:proto['nfixed']]),
+                      (',...' + ','.join(proto['args'][proto['nfixed']:])) if proto['vararg'] else '',
+                      ','.join(proto['res']))
+    if proto.get('cty') or proto.get('rcty'):   # C shapes of the aggregates (gen_c05_ctypes): part of the identity
+        import hashlib
+        s += '#' + hashlib.sha1(repr((proto.get('cty'), proto.get('rcty'))).encode()).hexdigest()[:8]
+    return s
 
 
 def hexs(b):
@@ -702,3 +706,78 @@ def gen_aggregate_proto(rng):
             nfixed += 1
     res = rng.choice([[], ['i64'], ['d'], ['i32'], ['i64', 'd'], ['d', 'd'], ['i64', 'i64'], ['ld'], ['f']])
     return dict(args=args, nfixed=nfixed, vararg=vararg, res=res, style='agg')
+
+
+# ---------------------------------------------------------------- aggregates given as C type trees (round 3, wave v)
+
+def shaped_proto(shapes, pre=(), post=(), ret=None, style='shape', between=None):
+    """prototype passing the C aggregates `shapes` (gen_c05_ctypes trees) by value after the scalars `pre`; `ret`: a
+    tree returned by value (<= 16 bytes) or a list of MIR result types"""
+    import gen_c05_ctypes as T
+    args, cty, cval = list(pre), [None] * len(pre), [None] * len(pre)
+    valid = lambda t: sorted({b for o, n, _ in T.scalars(t) for b in range(o, o + n)})   # bytes that are not padding
+    for i, t in enumerate(shapes):
+        args.append(T.blk_type(t))
+        cty.append(T.ctext(t))
+        cval.append(valid(t))
+        if between and i + 1 < len(shapes):
+            args.append(between)
+            cty.append(None)
+            cval.append(None)
+    args += list(post)
+    cty += [None] * len(post)
+    cval += [None] * len(post)
+    p = dict(args=args, nfixed=len(args), vararg=False, res=[], style=style, cty=cty, cval=cval)
+    if isinstance(ret, tuple) and T.res_types(ret):
+        p.update(res=T.res_types(ret), rcty=T.ctext(ret), rsize=T.size_align(ret)[0], rval=valid(ret))
+    elif isinstance(ret, list):
+        p['res'] = ret
+    return p
+
+
+def shaped_core():
+    """every aimed shape (gen_c05_ctypes.aimed_shapes) passed in registers (packed while both register files last) and
+    the first one of each prototype also returned by value"""
+    import gen_c05_ctypes as T
+    out, cur, ni, nx = [], [], 0, 0
+    def flush():
+        if cur:
+            out.append(shaped_proto(cur, ret=cur[0], style='shape-core', between='i64' if len(out) % 3 == 0 else 'd' if len(out) % 3 == 1 else None))
+    for d, t in T.aimed_shapes():
+        i, x = agg_regs(T.blk_type(t))
+        if cur and (ni + i > 5 or nx + x > 7 or len(cur) >= 4):
+            flush()
+            cur, ni, nx = [], 0, 0
+        cur.append(t)
+        ni, nx = ni + i, nx + x
+    flush()
+    return out
+
+
+def gen_shaped_proto(rng):
+    """random C aggregates (nested structs / unions / arrays / anonymous members, mixed classes inside eightbytes) at
+    the places the flat menu is used: alone, after scalars that leave 0..2 registers of a class, in variadic tails,
+    as results"""
+    import gen_c05_ctypes as T
+    ni = rng.choice([0, 0, 0, 2, 4, 5, 6])
+    nd = rng.choice([0, 0, 0, 4, 6, 7, 8])
+    pre = [rng.choice(['i64', 'i32', 'p']) for _ in range(ni)] + [rng.choice(['d', 'f']) for _ in range(nd)]
+    rng.shuffle(pre)
+    shapes = [T.gen_shape(rng, rng.random() < 0.88) for _ in range(rng.choice([1, 2, 2, 3, 4]))]
+    r = rng.random()
+    ret = T.gen_shape(rng) if r < 0.45 else shapes[0] if r < 0.6 else rng.choice([[], ['i64'], ['d'], ['f'], ['i64', 'd'], ['d', 'd']])
+    p = shaped_proto(shapes, pre=pre, ret=ret, between=rng.choice([None, None, 'i64', 'd', 'i32', 'f']))
+    if rng.random() < 0.3:   # scalars after the aggregates
+        k = len(pre)
+        p['args'], p['cty'], p['cval'] = p['args'][k:] + p['args'][:k], p['cty'][k:] + p['cty'][:k], p['cval'][k:] + p['cval'][:k]
+    if rng.random() < 0.15 and len(p['args']) >= 2:   # aggregates in a variadic tail
+        nf = rng.randint(1, len(p['args']) - 1)
+        args = p['args'][:nf] + [a if is_blk(a) or a in ('i64', 'd') else ('d' if a == 'f' else 'i64') for a in p['args'][nf:]]
+        cty, cval = list(p['cty']), list(p['cval'])
+        if is_blk(args[nf - 1]):
+            args.insert(nf, 'i64')
+            cty.insert(nf, None)
+            cval.insert(nf, None)
+            nf += 1
+        p.update(args=args, cty=cty, cval=cval, nfixed=nf, vararg=True)
+    return p
